@@ -7,6 +7,7 @@ package main
 import (
 	"fmt"
 	"strings"
+	"sync"
 
 	"harness/sx"
 
@@ -193,6 +194,13 @@ func runTok(which string) func(in sx.SX) (sx.SX, string) {
 				fail = fmt.Sprintf("token values concatenate to %s, not to the input", sx.Quote(sb.String()))
 			}
 		case "C15", "C12":
+			if which == "C12" {
+				c12FarOnce.Do(func() { c12Far = probeFarPositions() })
+				if c12Far != "" {
+					fail = c12Far
+					break
+				}
+			}
 			want := postOracle(t0, raw, bits)
 			if len(want) != len(got) {
 				fail = fmt.Sprintf("%d tokens, the option-free stream post-processed by the options has %d", len(got), len(want))
@@ -216,6 +224,30 @@ func runTok(which string) func(in sx.SX) (sx.SX, string) {
 						break
 					}
 				}
+			}
+		}
+		// the pull interface: the reader is attached first and the options are set afterwards; HasNextToken is polled one to
+		// three times before every NextToken - the tokens are those of TokenizeBuffer
+		if fail == "" {
+			t3 := newTokenizer(kind, l[3])
+			setOptions(t3, 0)
+			t3.SetReader(sio.NewStringScanner(text))
+			setOptions(t3, bits)
+			var pulled []*tokenizers.Token
+			for i := 0; i <= len(got)+2; i++ {
+				has := t3.HasNextToken()
+				for k := 0; k < i%3; k++ {
+					if t3.HasNextToken() != has && fail == "" {
+						fail = fmt.Sprintf("HasNextToken polled twice without a NextToken in between answers %v and then %v (after %d tokens)", has, !has, len(pulled))
+					}
+				}
+				if !has {
+					break
+				}
+				pulled = append(pulled, t3.NextToken())
+			}
+			if fail == "" && sx.Text(tokensSX(pulled)) != sx.Text(obs) {
+				fail = fmt.Sprintf("SetReader, then the options, then HasNextToken/NextToken gives %s, TokenizeBuffer with the same options %s", sx.Text(tokensSX(pulled)), sx.Text(obs))
 			}
 		}
 		// a tokenizer object with a past: an earlier input, an abandoned HasNextToken look-ahead - then the same call
@@ -260,6 +292,38 @@ func runTok(which string) func(in sx.SX) (sx.SX, string) {
 		}
 		return obs, fail
 	}
+}
+
+// probeFarPositions (C12, once per run, outside the model): tokens more than 65535 columns into a line and more than 65535
+// lines down report the position a forward scan of a new scanner gives for their first character
+var c12FarOnce sync.Once
+var c12Far string
+
+func probeFarPositions() string {
+	const n = 70000
+	texts := map[int][]string{
+		0: {strings.Repeat("ab ", n), strings.Repeat("a \n", n), strings.Repeat("x \r\n", n/2) + strings.Repeat("y ", n)},
+		1: {strings.Repeat("ab ", n), strings.Repeat("a \n", n)},
+		2: {strings.Repeat("ab,", n), strings.Repeat("a,\n", n)},
+		3: {strings.Repeat("{{a}} ", n), strings.Repeat("{{a}} \n", n)},
+	}
+	for kind := 0; kind < 4; kind++ {
+		for _, text := range texts[kind] {
+			t := newTokenizer(kind, defaultCsvCfg)
+			setOptions(t, 0)
+			sc := sio.NewStringScanner(text)
+			for i, tok := range t.TokenizeBuffer(text) {
+				if sc.PeekLine() != tok.Line() || sc.PeekColumn() != tok.Column() {
+					return fmt.Sprintf("%s tokenizer on a text of %d characters (%s...): token %d %s reports line %d column %d; a forward scan puts its first character at line %d column %d",
+						tokNames[kind], len([]rune(text)), sx.Quote(text[:8]), i, sx.Quote(tok.Value()), tok.Line(), tok.Column(), sc.PeekLine(), sc.PeekColumn())
+				}
+				for range []rune(tok.Value()) {
+					sc.Read()
+				}
+			}
+		}
+	}
+	return ""
 }
 
 var warmTok = map[string]tokenizers.ITokenizer{}
@@ -452,5 +516,5 @@ func init() {
 	register(&Prop{ID: "C15", Gen: genTok("all"), Run: runTok("C15"), Human: tokHuman,
 		Rule: "the C04 input space x option combinations: quick = {none, all, 3 fixed, 4 random} per input plus 12 option-sensitive inputs under all 128 option sets, thorough = all 128 on every input of length <= 2 over the alphabet and 16 (none, all, 14 drawn) on every other input; the four tokenizers; non-trivial = at least two character classes; distinct by input hash"})
 	register(&Prop{ID: "C12", Gen: genTok("all"), Run: runTok("C12"), Human: tokHuman,
-		Rule: "the C15 input space (multi-line inputs with every line-break style, tokens of every class at every offset, the four tokenizers, option combinations as in C15); every token position is compared with a forward scan of a fresh scanner; non-trivial = at least two character classes; distinct by input hash"})
+		Rule: "the C15 input space (multi-line inputs with every line-break style, tokens of every class at every offset, the four tokenizers, option combinations as in C15); every token position is compared with a forward scan of a fresh scanner; once per run, outside the model, texts of 140,000-280,000 characters (70,000 tokens on one line, 70,000 lines) are tokenized by each tokenizer and every token position is compared with a forward scan; non-trivial = at least two character classes; distinct by input hash"})
 }
